@@ -19,6 +19,7 @@ import (
 	"encoding/json"
 	"fmt"
 	"os"
+	"syscall"
 	"time"
 
 	"verif/h/fw"
@@ -50,7 +51,7 @@ func main() {
 			if tier == "thorough" {
 				return 17 * time.Minute
 			}
-			return 70 * time.Second
+			return 60 * time.Second
 		},
 	})
 }
@@ -114,7 +115,7 @@ func run(c *fw.Ctx) {
 
 	var idx int64
 	mine := func() bool { idx++; return c.Mine(idx) }
-	r.t0 = time.Now()
+	r.t0 = cpuNow()
 	stop := func(what string) bool {
 		if c.Expired() {
 			c.Cap(what)
@@ -168,7 +169,7 @@ func run(c *fw.Ctx) {
 					r.parsedRT("tx", buf, po)
 				}
 			}
-			{
+			if p == 0 || c.Thorough() {
 				r.checkParse("txs", cat(fBytes(1, buf), fBytes(1, f.fullTx)), func() string { return "TransactionSlice[" + org() + ", full tx]" })
 				r.checkParse("block", cat(fBytes(1, f.fullHdr), fBytes(2, buf)), func() string { return "Block{full header, " + org() + "}" })
 			}
@@ -180,44 +181,6 @@ func run(c *fw.Ctx) {
 	c.Sample(map[string]interface{}{"family": "tx-subsets", "example_fields": maskNames(f.tx, 0x10), "example_hex": hex.EncodeToString(assemble(nil, f.tx, 0x10, 0))})
 
 	r.lap("T2-tx-subsets")
-	// ---- T3: header presence subsets (2^20), bare and inside a Block
-	for p := 0; p < len(hdrProfileNames); p++ {
-		enc := f.hdrEnc(p)
-		restricted := !c.Thorough() && (p == 1 || p == 2) // times undecodable: every case ends before the field conversions
-		for mask := uint32(0); mask < 1<<20; mask++ {
-			if mask == 0 && p > 0 {
-				continue
-			}
-			if restricted {
-				if n := popcount(mask); n > 3 && n < 17 {
-					continue
-				}
-			}
-			if !mine() {
-				continue
-			}
-			buf = assembleEnc(buf, enc, mask)
-			org := func() string { return fmt.Sprintf("header fields %v profile %s", maskNames(f.hdr, mask), hdrProfileNames[p]) }
-			if len(buf) > 2 {
-				po := r.checkParse("header", buf, org)
-				if po.class == "ok" {
-					r.parsedRT("header", buf, po)
-				}
-			}
-			{
-				r.checkParse("block", cat(fBytes(1, buf), fBytes(2, f.fullTx)), func() string { return "Block{" + org() + ", full tx}" })
-			}
-			if mask&0xffff == 0 && stop("header subsets") {
-				return
-			}
-		}
-		if restricted {
-			c.Note("quick_header_profiles_1_2", "subsets with <=3 or >=17 present fields only (times undecodable in these profiles)")
-		}
-	}
-	c.Sample(map[string]interface{}{"family": "header-subsets", "example_fields": maskNames(f.hdr, 0x4a), "example_hex": hex.EncodeToString(assembleEnc(nil, f.hdrEnc(0), 0x4a))})
-
-	r.lap("T3-header-subsets")
 	// ---- T4: group presence subsets: 5 group fields + header present + 8 header fields
 	var hb []byte
 	for p := 0; p < nProfiles; p++ {
@@ -279,13 +242,71 @@ func run(c *fw.Ctx) {
 		return
 	}
 	r.lap("T5-T6-mutations")
-	r.roundTrips()
+	if !r.roundTrips(false) {
+		return
+	}
+	if !r.headerSubsets(f, mine, stop) {
+		return
+	}
+	r.lap("T3-header-subsets")
+	r.roundTrips(true)
+}
+
+// headerSubsets is T3: header presence subsets (2^20 per profile), bare and inside a Block.
+func (r *runner) headerSubsets(f *families, mine func() bool, stop func(string) bool) bool {
+	c := r.c
+	var buf []byte
+	// ---- T3: header presence subsets (2^20), bare and inside a Block
+	for p := 0; p < len(hdrProfileNames); p++ {
+		enc := f.hdrEnc(p)
+		restricted := !c.Thorough() && p > 0
+		for mask := uint32(0); mask < 1<<20; mask++ {
+			if mask == 0 && p > 0 {
+				continue
+			}
+			if restricted {
+				if n := popcount(mask); n > 3 && n < 17 {
+					continue
+				}
+			}
+			if !mine() {
+				continue
+			}
+			buf = assembleEnc(buf, enc, mask)
+			org := func() string { return fmt.Sprintf("header fields %v profile %s", maskNames(f.hdr, mask), hdrProfileNames[p]) }
+			if len(buf) > 2 {
+				po := r.checkParse("header", buf, org)
+				if po.class == "ok" {
+					r.parsedRT("header", buf, po)
+				}
+			}
+			if n := popcount(mask); c.Thorough() || n <= 3 || n >= 17 {
+				r.checkParse("block", cat(fBytes(1, buf), fBytes(2, f.fullTx)), func() string { return "Block{" + org() + ", full tx}" })
+			}
+			if mask&0xffff == 0 && stop("header subsets") {
+				return false
+			}
+		}
+		if restricted {
+			c.Note("quick_header_profiles_1_to_4", "subsets with <=3 or >=17 present fields only; all 2^20 subsets in profile 0; thorough: all subsets in all 5 profiles")
+		}
+	}
+	c.Sample(map[string]interface{}{"family": "header-subsets", "example_fields": maskNames(f.hdr, 0x4a), "example_hex": hex.EncodeToString(assembleEnc(nil, f.hdrEnc(0), 0x4a))})
+
+	return true
+}
+
+
+func cpuNow() time.Duration {
+	var ru syscall.Rusage
+	syscall.Getrusage(syscall.RUSAGE_SELF, &ru)
+	return time.Duration(ru.Utime.Nano() + ru.Stime.Nano())
 }
 
 // lap records the CPU-side cost of a family (informational only, never an oracle).
 func (r *runner) lap(name string) {
-	now := time.Now()
-	r.c.Count("ms_"+name, now.Sub(r.t0).Milliseconds())
+	now := cpuNow()
+	r.c.Count("cpu_ms_"+name, (now - r.t0).Milliseconds())
 	r.t0 = now
 }
 
